@@ -3,7 +3,7 @@
 # Compiles <repo_dir> (default /repo) lib target under cargo +nightly check with the facts driver
 # as RUSTC_WORKSPACE_WRAPPER and writes the facts file. Fails closed when no fresh facts appear.
 set -euo pipefail
-CFG="$1"; OUT="$2"; REPO="${3:-/repo}"
+CFG="$1"; OUT="$(realpath -m "$2")"; REPO="$(realpath "${3:-/repo}")"
 HERE="$(cd "$(dirname "$0")" && pwd)"
 DRV="$HERE/driver/target/release/sm9-facts"
 [ -x "$DRV" ] || { echo "driver not built: run setup" >&2; exit 2; }
